@@ -39,6 +39,7 @@ import (
 	"sync"
 	"sync/atomic"
 	"time"
+	"unicode/utf8"
 
 	"rare/pkg/expressions"
 	"rare/pkg/expressions/funcfile"
@@ -94,11 +95,55 @@ type Scn struct {
 	Ffnames  []string `json:"ffnames,omitempty"`
 	Funcfile []string `json:"funcfile,omitempty"`
 	Values   []Value  `json:"values,omitempty"`
+	Texts    []TextRow `json:"texts,omitempty"`
 	// g = "lineset"
 	Name string `json:"name,omitempty"`
 }
 
-func (s *Scn) Text() string {
+// TextRow: the length of a pooled text in bytes, runes and NUL-separated elements as ExprText.tla computes it
+type TextRow struct {
+	ID string `json:"id"`
+	Nb int    `json:"nb"`
+	Nr int    `json:"nr"`
+	Ne int    `json:"ne"`
+}
+
+// checkTexts compares the model's measures with the real strings (len, utf8.RuneCountInString, elements).
+func checkTexts(vt *valueTable, rows []TextRow) []string {
+	var bad []string
+	for _, r := range rows {
+		s, err := vt.get(r.ID)
+		if err != nil {
+			bad = append(bad, err.Error())
+			continue
+		}
+		if nb, nr, ne := len(s), utf8.RuneCountInString(s), strings.Count(s, "\x00")+1; nb != r.Nb || nr != r.Nr || ne != r.Ne {
+			bad = append(bad, fmt.Sprintf("text %s: the model says %d bytes / %d runes / %d elements, the string has %d / %d / %d", r.ID, r.Nb, r.Nr, r.Ne, nb, nr, ne))
+		}
+	}
+	return bad
+}
+
+// A template token "$$V:<id>$$" stands for the bytes of the value <id> written as a constant (texts with multi-byte
+// characters: the TLA+ strings of the generator are ASCII).  constVT is the value table the placeholders are resolved in.
+var constVT *valueTable
+var placeholderRe = regexp.MustCompile(`\$\$V:([^$]*)\$\$`)
+
+func expandConsts(text string) string {
+	if constVT == nil || !strings.Contains(text, "$$V:") {
+		return text
+	}
+	return placeholderRe.ReplaceAllStringFunc(text, func(m string) string {
+		if v, err := constVT.get(m[4 : len(m)-2]); err == nil {
+			return v
+		}
+		return m
+	})
+}
+
+func (s *Scn) Text() string { return expandConsts(s.rawText()) }
+
+func (s *Scn) rawText() string {
 	if len(s.Exprs) > 0 {
 		parts := make([]string, len(s.Exprs))
 		for i := range s.Exprs {
@@ -640,7 +685,8 @@ func cmdWorker(args []string) error {
 		return err
 	}
 	defer f.Close()
-	wk := &worker{vt: newValueTable(cm.Values), linesets: cm.Linesets, out: bufio.NewWriter(f),
+	constVT = newValueTable(cm.Values)
+	wk := &worker{vt: constVT, linesets: cm.Linesets, out: bufio.NewWriter(f),
 		deadline: time.Duration(*deadline) * time.Millisecond, memLimit: int64(*mem) << 20, traceMod: *traceMod}
 	wk.curID.Store("")
 	if *hashes != "" {
@@ -892,6 +938,7 @@ func cmdReplay(args []string) error {
 	var light, heavy, procs [][]byte
 	var lrefs, hrefs, prefs []scnRef
 	seen := map[string]bool{}
+	var textRows []TextRow
 	err = vh.ReadNd(*in, func(raw json.RawMessage) error {
 		var s Scn
 		if err := json.Unmarshal(raw, &s); err != nil {
@@ -904,6 +951,7 @@ func cmdReplay(args []string) error {
 		switch s.G {
 		case "values":
 			cm.Values, cm.Funcfile = s.Values, s.Funcfile
+			textRows = s.Texts
 			return nil
 		case "lineset":
 			cm.Linesets[s.Name] = s.Lines
@@ -928,6 +976,13 @@ func cmdReplay(args []string) error {
 	if len(cm.Values) == 0 {
 		return errors.New("no values vector in the input")
 	}
+	constVT = newValueTable(cm.Values)
+	for _, refs := range [][]scnRef{lrefs, hrefs, prefs} { // (the value table may come after the scenarios)
+		for i := range refs {
+			refs[i].text = expandConsts(refs[i].text)
+		}
+	}
+	textTrouble := checkTexts(constVT, textRows)
 	cb, _ := json.Marshal(cm)
 	commonPath := dir + "/common.json"
 	if err := os.WriteFile(commonPath, cb, 0o644); err != nil {
@@ -967,6 +1022,9 @@ func cmdReplay(args []string) error {
 	}
 
 	a := &agg{perGroup: map[string]int{}, perFunc: map[string]int{}, clsCount: map[string]int{}, procModes: map[string]int{}, confirmed: map[string]int{}}
+	for _, t := range textTrouble {
+		a.infra = append(a.infra, "ExprText.tla measures out of date: "+t)
+	}
 	if *ptracePath != "" {
 		pf, err := os.Create(*ptracePath)
 		if err != nil {
@@ -1041,7 +1099,7 @@ func cmdReplay(args []string) error {
 		"findings": a.findings, "mismatches": a.mismatches, "unconfirmed": a.unconfirmed, "samples": a.samples,
 		"distinct_nontrivial": distinct, "trace_scans": a.traceScans, "trace_events": a.traceEvents,
 		"children": a.children, "child_deaths": a.childDeaths, "infra": a.infra, "batches": len(batches),
-		"expected": len(light) + len(heavy) + len(procs),
+		"expected": len(light) + len(heavy) + len(procs), "texts_measured": len(textRows),
 	})
 	os.RemoveAll(dir)
 	return nil
@@ -1406,6 +1464,7 @@ func cmdCli(args []string) error {
 		return err
 	}
 	vt := newValueTable(cm.Values)
+	constVT = vt
 	ffPath := dir + "/c08.funcs"
 	os.WriteFile(ffPath, []byte(strings.Join(cm.Funcfile, "\n")+"\n"), 0o644)
 
